@@ -83,6 +83,7 @@ type Step struct {
 	Upd  *JUpd    `json:"upd,omitempty"`
 	S    []int    `json:"s,omitempty"`
 	Rem  []int    `json:"rem,omitempty"`
+	Lab  []int    `json:"lab,omitempty"` // relabelling in force after the step (spec/Core.tla marks.lab)
 	// light client / partial / proofops families
 	Held  []int   `json:"held,omitempty"`
 	Cp    *JProof `json:"cp,omitempty"`
